@@ -57,6 +57,7 @@ for name, path, frp in curves:
 package te
 
 import (
+	"fmt"
 	"math/big"
 
 	fr "%(mod)s/%(frp)s"
@@ -92,6 +93,23 @@ func %(fn)s() *Curve {
 			Name: "%(path)s", Q: fr.Modulus(), Order: new(big.Int).Set(&cp.Order), Cofactor: cp.Cofactor.BigInt(new(big.Int)),
 			A: cp.A.BigInt(new(big.Int)), D: cp.D.BigInt(new(big.Int)), Base: repAff(&cp.Base),
 		}
+	}
+	// GetterPrivate: what a caller does, in place, to the parameters it was handed must not reach the package (the
+	// order is a big.Int: a shallow copy shares its words). Run it last - if the parameters are shared the package is
+	// left with a wrong order.
+	g.GetterPrivate = func() error {
+		before := te.GetEdwardsCurve()
+		want := new(big.Int).Set(&before.Order)
+		mine := te.GetEdwardsCurve()
+		mine.Order.Sub(&mine.Order, big.NewInt(1))
+		mine.Order.Rsh(&mine.Order, 1)
+		mine.A.SetUint64(12345)
+		mine.Base.X.SetUint64(7)
+		after := te.GetEdwardsCurve()
+		if after.Order.Cmp(want) != 0 || !after.A.Equal(&before.A) || !after.Base.Equal(&before.Base) {
+			return fmt.Errorf("GetEdwardsCurve() returns order %%s after a caller halved the order of the value it had received (was %%s)", after.Order.String(), want.String())
+		}
+		return nil
 	}
 	g.Lib = func(r Rep) any {
 		switch r.Sys {
